@@ -28,7 +28,8 @@ ENTRY = {
              "DeleteStorageItem/GetStorageItem, Get, Seek / SeekAsync (prefix cut on/off, cancel after n) / dao.Seek / "
              "dao.SeekAsync / interop storage Iterator (Find option sets) with prefix 1-3 bytes, start, direction, "
              "SearchDepth 0-4 and early stop, Persist / PersistSync / PersistPrivate of any layer with optional injected "
-             "PutChangeSet error, push/discard of layers, SeekGC on the backend (one pass in four with another goroutine committing a "
+             "PutChangeSet error (one asynchronous flush of the bottom layer in six overlaps with another goroutine's Put + PersistSync on "
+             "that layer, started when the batch has reached the backend), push/discard of layers, SeekGC on the backend (one pass in four with another goroutine committing a "
              "fresh value for the key the pass is at: the commit must survive), clean and dirty close+reopen of disk "
              "backends; after every flush-like operation every layer view is scanned completely in both directions, every "
              "key ever written is read, and the last four range queries are asked again. Concurrent plans (1 of 4): a "
@@ -42,7 +43,7 @@ ENTRY = {
                "seek", "seek_nonempty", "backwards_seek", "seek_with_start", "backwards_start_has_extension_key",
                "depth_limited", "depth_excludes_backend", "seek_async", "seek_async_cancel", "prefix_cut", "dao_seek",
                "find_iterator", "get", "flush_to_layer", "flush_to_backend", "reasked_after_flush", "seekgc",
-               "seekgc_deleted", "seekgc_with_concurrent_commit", "clean_reopen", "dirty_reopen", "putchangeset_error", "wide_alphabet",
+               "seekgc_deleted", "seekgc_with_concurrent_commit", "persist_with_overlapping_sync_flush", "clean_reopen", "dirty_reopen", "putchangeset_error", "wide_alphabet",
                "mode_concurrent", "flush_in_window", "write_in_flush_window", "get_in_flush_window",
                "lower_scan_in_flush_window", "reader_parked_in_scan", "step_while_reader_in_scan", "writer_during_scan",
                "flush_during_scan", "scan_flush_only_exact", "writer_batch", "batch_seen_whole_by_concurrent_scan",
